@@ -48,7 +48,7 @@ CHECKS = {
               "x 1-6 generated requests (8 classes: acceptable, no-reply functions, every unsupported function code, bad header flags, unparsable objects, header rejected for the function at first/middle/last/only position, unexpected objects); "
               "rules S1-S5 evaluated on every transmitted fragment; distinct = (state, request class incl. function code and position, deferred/now) tuples in which a rule was evaluated"),
         runs=[dict(check="c12", scale=10, timeout_s=900)],
-        required=["S1_seq_ok", "S3_no_reply_ok", "S4_size_ok", "S4_parse_ok", "S5_error_reported", "unsol_fragments_checked", "unsol_seq_consecutive", "series_continuations", "deferred_reads", "state_sol_confirm_wait_reached"],
+        required=["S1_seq_ok", "S3_no_reply_ok", "S4_size_ok", "S4_parse_ok", "S5_error_reported", "unsol_fragments_checked", "unsol_seq_consecutive", "series_continuations", "deferred_reads", "state_sol_confirm_wait_reached", "S2_application_value_ok", "S2_restart_not_supported_ok"],
         thorough_scale=25.0,
         abnormal_exit_is_violation=True,
         assumptions=HARNESS_TRUST,
